@@ -455,15 +455,17 @@ def C12(tier, seed):
                 return n, 'real build crashed on %s' % rec['case']
             exp = [[(str(parse_q(x) * den) if x != '-' else '-') for x in row] for row in rec['dist']]
             got = [[(str(fractions.Fraction(x)) if x != '-' else '-') for x in row] for row in o['dist']]
-            if not o['exact']:
-                return n, {'line': lines[len(lines) - len(meta) + n] if False else 'what=sptree n=%s edges=%s' % (rec['n'], rec['edges']), 'observed': o, 'key': 'sptree/%s' % rec['edges']}
+            if not (o['exact'] and o['tree_ok'] and o['first_ok'] and o['rev_ok'] and o['sub_ok']):
+                return n, {'line': 'what=sptree n=%s edges=%s weights=%s' % (rec['n'], rec['edges'], ','.join(map(str, instance_weights(rec, rec['model'])[0]))),
+                           'observed': o, 'key': 'sptree/%s' % rec['edges']}
             if exp != got:
                 return n, 'distances differ on %s model %s: symbolic %s real %s' % (rec['case'], rec['model'], exp, got)
             n += 1
         return n, None
 
-    confirm = generic_confirm('C12', lambda rec, w: 'what=sptree n=%s edges=%s weights=%s' % (rec['n'], rec['edges'], ','.join(map(str, w))),
-                              lambda o, rec, obl: not o.get('exact', False), lambda rec, obl: 'sptree/%s' % rec['edges'], 'replay/r_misc.cpp')
+    confirm = generic_confirm('C12', lambda rec, w: 'what=sptree n=%s edges=%s weights=%s%s' % (rec['n'], rec['edges'], ','.join(map(str, w)), (' order=' + rec['order']) if rec.get('order') else ''),
+                              lambda o, rec, obl: not (o.get('exact', False) and o.get('tree_ok') and o.get('first_ok') and o.get('rev_ok') and o.get('sub_ok')),
+                              lambda rec, obl: 'sptree/%s' % rec['edges'], 'replay/r_misc.cpp')
     bounds = {
         'functions_encoded': ['parmcb::lex_dijkstra', 'LexDistanceCompare/Combine', 'parmcb::SPTree (initialize, compute_first_in_path)'],
         'bounds': 'trees rooted at EVERY vertex in one path; quick: all labelled graphs on <=4 vertices with m<=5 fully symbolic, K4 3-symbolic, '
